@@ -7,6 +7,7 @@ import (
 	"errors"
 	"fmt"
 	"io"
+	"log/slog"
 	"net"
 	"time"
 
@@ -315,6 +316,11 @@ type RecMetrics struct {
 
 var _ service.ServiceMetrics = (*RecMetrics)(nil)
 
+// debugLogger is a logger at debug level whose output is discarded.
+func debugLogger() *slog.Logger {
+	return slog.New(slog.NewTextHandler(io.Discard, &slog.HandlerOptions{Level: slog.LevelDebug}))
+}
+
 // serverEndOf identifies the simulated connection behind a net.Conn the server
 // hands out (it may be a wrapper): by concrete type, else by its endpoints (the
 // latest accepted connection from that remote address).
@@ -434,6 +440,9 @@ type tcpServerOpts struct {
 	Timeout time.Duration // 0: use the full Service (59s)
 	Metrics *RecMetrics
 	Dialer  transport.StreamDialer // nil: the default validating dialer
+	// Debug gives the handler a logger at debug level (output discarded): the
+	// operator's -verbose flag; the code paths that only format debug messages run
+	Debug   bool
 	AddrStr string
 	UseSvc  bool
 }
@@ -462,14 +471,25 @@ func startTCPServer(rc *RunCtx, w *simnet.World, o tcpServerOpts) *tcpServer {
 	var handle service.StreamHandleFunc
 	if o.UseSvc || o.Timeout == 0 {
 		s.Timeout = 59 * time.Second
-		svc, err := service.NewShadowsocksService(service.WithCiphers(s.Ciphers), service.WithMetrics(s.M), service.WithReplayCache(s.Replay))
+		sopts := []service.Option{service.WithCiphers(s.Ciphers), service.WithMetrics(s.M), service.WithReplayCache(s.Replay)}
+		if o.Debug {
+			sopts = append(sopts, service.WithLogger(debugLogger()))
+		}
+		svc, err := service.NewShadowsocksService(sopts...)
 		if err != nil {
 			panic(err)
 		}
 		handle = svc.HandleStream
 	} else {
-		auth := service.NewShadowsocksStreamAuthenticator(s.Ciphers, s.Replay, &ssm{s.M, "tcp"}, nil)
+		var lg *slog.Logger
+		if o.Debug {
+			lg = debugLogger()
+		}
+		auth := service.NewShadowsocksStreamAuthenticator(s.Ciphers, s.Replay, &ssm{s.M, "tcp"}, lg)
 		h := service.NewStreamHandler(auth, o.Timeout)
+		if o.Debug {
+			h.SetLogger(lg)
+		}
 		if o.Dialer != nil {
 			h.SetTargetDialer(o.Dialer)
 		}
